@@ -241,7 +241,29 @@ class Evo:
         a = self.loop_bound_attr(self.forward, lp)
         if a is not None:
             return a
+        g = self._generator_callee(self.forward, lp)
+        if g is not None:
+            err = AnalysisError(f'{self.forward.short}: the level loop is driven by the generator {g.short}; the '
+                                f'level count is not decided for this form')
+            err.undecided = True
+            raise err
         raise AnalysisError(f'{self.forward.short}: level loop is not range(self.<density>)')
+
+    def _generator_callee(self, f: FuncInfo, lp) -> Optional[FuncInfo]:
+        """The generator method of the class (a function containing yield) the loop iterates over, if any."""
+        it = getattr(lp, 'iter', None)
+        if isinstance(it, ast.Call) and isinstance(it.func, ast.Attribute) and isinstance(it.func.value, ast.Name) and \
+                f.param_names and it.func.value.id == f.param_names[0]:
+            from ..index import mangle
+            m = self.cls.lookup(it.func.attr) or self.cls.lookup(mangle(self.cls.name, it.func.attr))
+            if m is None:
+                for nm, fn in self.cls.methods.items():
+                    if nm == it.func.attr or nm.endswith(it.func.attr):
+                        m = fn
+                        break
+            if m is not None and any(isinstance(n, (ast.Yield, ast.YieldFrom)) for n in ast.walk(m.node)):
+                return m
+        return None
 
     @staticmethod
     def alias_map(f: FuncInfo) -> Dict[str, str]:
@@ -452,8 +474,8 @@ def rule_affine(ctx: Ctx, rid: str, which=('P2D', 'D2P'), scope=None):
     for w in which:
         fn = e.p2d if w == 'P2D' else e.d2p
         selfv = var(fn.param_names[0])
-        Uarr = attr(selfv, 'upperBoundOfFloatVariables')
-        Larr = attr(selfv, 'lowerBoundOfFloatVariables')
+        Uarr = attr(selfv, e.backing_field('upperBoundOfFloatVariables'))
+        Larr = attr(selfv, e.backing_field('lowerBoundOfFloatVariables'))
         has_loop = any(isinstance(nn, ast.For) for nn in fn.node.body)
         msg = 'cube -> box map is y*(U-L) + (U+L)/2' if w == 'P2D' else 'box -> cube map is (y - (U+L)/2)/(U-L)'
         done = False
@@ -592,7 +614,7 @@ def rule_box_copied(ctx: Ctx, rid: str):
         selfv = var(fn.param_names[0])
         for p in C.normal_paths(ex2.explore(fn)):
             for fld in ('lowerBoundOfFloatVariables', 'upperBoundOfFloatVariables'):
-                v = p.state.heap.get((key_of(selfv), fld))
+                v = p.state.heap.get((key_of(selfv), e.backing_field(fld)))
                 ok = False
                 if v is not None:
                     ce = C.call_event_of_result(p, v)
